@@ -59,6 +59,28 @@ func runCase(e *env, op int, k kase) obs {
 	return e.execHandler(cnt, path, k, owned)
 }
 
+// calibrate runs the two smallest witnesses of the known defects on the tree under
+// test and records which of them it exhibits; this only selects the defect model
+// that names the class of a violation, it never turns a violation into a pass.
+func calibrate() {
+	treeOverwritesNil, treeSkipsUnregistered = false, false
+	probe := func(k kase) (yes bool) {
+		defer func() {
+			if recover() != nil {
+				yes = false
+			}
+		}()
+		e := buildEnv(envKey{decl: k.decl, mode: k.mode, reg: k.reg, az: false}, []structure{structureOf(k)})
+		o := runCase(e, 0, k)
+		return o.kind == obsRun && o.orderOwned
+	}
+	and12 := altK{n: 2, s: [nS]int8{0, 1}}
+	nilW := kase{level: lvlAuthorize, nalts: 1, alts: [3]altK{and12}, reg: 7, out: [nS]uint8{oNIL, oOK, oNA}}
+	unregW := kase{level: lvlAuthorize, nalts: 1, alts: [3]altK{and12}, reg: 6, out: [nS]uint8{oNA, oOK, oNA}}
+	treeOverwritesNil = probe(nilW)
+	treeSkipsUnregistered = probe(unregW)
+}
+
 // ---- the plan ----
 
 type regCfg struct{ reg, undef uint8 }
@@ -129,7 +151,7 @@ func plan(thorough bool) []envPlan {
 	s3 := allStructures(3)
 	s2 := s3[:countStructs(2)]
 	// A1/H1/H2/H3: declared on the operation, scripted authenticators
-	for _, rc := range regCfgs(true) {
+	for _, rc := range regCfgs(thorough) { // quick: the 8 registered subsets; thorough: also the 7 with the missing schemes undefined
 		for _, az := range []bool{false, true} {
 			key := envKey{decl: declOp, mode: modeRaw, reg: rc.reg, undef: rc.undef, az: az}
 			all := rc.reg == 7
@@ -149,7 +171,7 @@ func plan(thorough bool) []envPlan {
 					add(key, s3, job{level: lvlHandler, maxAlts: 2, azs: allAz, rests: fine})
 				}
 				add(key, s3, job{level: lvlHandler, maxAlts: 2, azs: []uint8{azAbsent, azAccept, azDeny}, rests: []uint8{restCType, restParam, restAccept}})
-			} else if thorough || rc.undef == 0 {
+			} else {
 				add(key, s3, job{level: lvlHandler, maxAlts: 2, azs: []uint8{azAbsent, azDenyP1}, rests: fine})
 			}
 		}
@@ -158,7 +180,11 @@ func plan(thorough bool) []envPlan {
 	for _, rc := range regCfgs(false) {
 		for _, az := range []bool{false, true} {
 			key := envKey{decl: declOp, mode: modeReal, reg: rc.reg, az: az}
-			add(key, s2, job{level: lvlAuthorize, maxAlts: 2, azs: allAz})
+			if thorough {
+				add(key, s2, job{level: lvlAuthorize, maxAlts: 2, azs: allAz})
+			} else {
+				add(key, s2, job{level: lvlAuthorize, maxAlts: 2, azs: []uint8{azAbsent, azDeny, azDenyP1}})
+			}
 			if thorough || rc.reg == 7 {
 				add(key, s2, job{level: lvlHandler, maxAlts: 2, azs: []uint8{azAbsent, azDenyP1}, rests: fine})
 			}
@@ -312,10 +338,14 @@ type tally struct {
 	outcomes          map[okey]int64
 	fails             map[string]*failAgg
 	unowned           int64
+	// tuples whose outcome depends on the evaluation order while each order's outcome is allowed (MAY)
+	orderDependentAllowed int64
 }
 
 func main() {
 	r := report.Start("C02", "exploration")
+	calibrate()
+	r.Set("defects_exhibited_by_the_witness_probes", map[string]bool{"nil principal overwritten inside an AND": treeOverwritesNil, "scheme without authenticator skipped inside an AND": treeSkipsUnregistered})
 	if r.Replay != "" {
 		var c Case
 		r.LoadReplay(&c)
@@ -354,6 +384,7 @@ func main() {
 
 	var failures atomic.Int64
 	knownClass := knownClasses()
+	verbose := os.Getenv("C02_VERBOSE") != "" // print one failing case per class and work item (also for known findings)
 	var abort atomic.Bool
 	stop := func() bool { return abort.Load() || r.OutOfTime() }
 	var mu sync.Mutex
@@ -370,10 +401,22 @@ func main() {
 		}
 		batch := plans[g:hi]
 		envs := make([]*env, len(batch))
-		enum.Parallel(len(batch), nil, func(i int) { envs[i] = buildEnv(batch[i].key, batch[i].structs) })
+		enum.Parallel(len(batch), nil, func(i int) {
+			defer func() {
+				if p := recover(); p != nil { // the tree under test cannot even build/route the API: report, do not crash
+					k := kase{decl: batch[i].key.decl, mode: batch[i].key.mode, reg: batch[i].key.reg, undef: batch[i].key.undef, nalts: batch[i].structs[0].n}
+					r.Fail("api-construction-failed", fmt.Sprint(p), k.toCase())
+					envs[i] = nil
+				}
+			}()
+			envs[i] = buildEnv(batch[i].key, batch[i].structs)
+		})
 		type item struct{ e, op int }
 		var items []item
 		for i, p := range batch {
+			if envs[i] == nil {
+				continue
+			}
 			for op := range p.structs {
 				items = append(items, item{i, op})
 			}
@@ -389,7 +432,12 @@ func main() {
 			st := p.structs[it.op]
 			t := tally{outcomes: map[okey]int64{}, fails: map[string]*failAgg{}}
 			var nOrders int64
+			// differential bookkeeping (evidence only): tuples (vector, authorizer, rest, level) of this structure whose
+			// outcome differs between evaluation orders although every order's outcome is allowed by the text
+			var firstCode []uint16
+			var differs []bool
 			for _, ord := range orders(st) {
+				ti := 0
 				if abort.Load() || (p.key.decl == declNone && nOrders > 0) {
 					break // (an operation that declares nothing has no orders to vary)
 				}
@@ -452,7 +500,19 @@ func main() {
 									t.unowned++
 								}
 								t.outcomes[label(k, o)]++
-								if cl := judge(k, o); cl != "" {
+								cl := judge(k, o)
+								code := uint16(o.kind)<<8 | uint16(o.tag)<<4 | uint16(o.princ+1)
+								if cl != "" {
+									code = 0xffff
+								}
+								if nOrders == 1 {
+									firstCode = append(firstCode, code)
+									differs = append(differs, false)
+								} else if ti < len(firstCode) && code != firstCode[ti] && code != 0xffff && firstCode[ti] != 0xffff {
+									differs[ti] = true
+								}
+								ti++
+								if cl != "" {
 									fa := t.fails[cl]
 									if fa == nil {
 										fa = &failAgg{}
@@ -476,6 +536,11 @@ func main() {
 					}
 				}
 			}
+			for _, d := range differs {
+				if d {
+					t.orderDependentAllowed++
+				}
+			}
 			r.Eval(t.evals)
 			r.Nontrivial(t.nontrivial)
 			for cl, fa := range t.fails {
@@ -483,6 +548,10 @@ func main() {
 				cases := make([]Case, len(fa.examples))
 				for i, ex := range fa.examples {
 					whats[i], cases[i] = explain(ex.k, ex.o), ex.k.toCase()
+				}
+				if verbose {
+					b, _ := json.Marshal(cases[0])
+					fmt.Printf("FAIL class=%s n=%d case=%s\n  %s\n", cl, fa.n, b, whats[0])
 				}
 				for i := int64(0); i < fa.n; i++ {
 					x := int(i) % len(cases)
@@ -494,6 +563,7 @@ func main() {
 				total.outcomes[l] += n
 			}
 			total.unowned += t.unowned
+			total.orderDependentAllowed += t.orderDependentAllowed
 			ordersRun += nOrders
 			structsRun++
 			mu.Unlock()
@@ -535,6 +605,7 @@ func main() {
 	r.Set("structure_instances_run", structsRun)
 	r.Set("structure_x_order_instances_run", ordersRun)
 	r.Set("cases_whose_evaluation_order_could_not_be_owned", total.unowned)
+	r.Set("tuples_whose_outcome_differs_between_orders_while_each_is_allowed_by_the_text", total.orderDependentAllowed)
 	r.Set("axes", map[string]any{
 		"alternatives":              "anonymous or a non-empty subset of {k1,k2,k3}: 8",
 		"structures":                map[string]int{"lists_of_1": 8, "lists_of_1_to_2": countStructs(2), "lists_of_1_to_3": countStructs(3)},
@@ -543,7 +614,7 @@ func main() {
 		"outcome_vectors_real":      len(vecs[modeReal]),
 		"per_scheme_outcomes":       outName,
 		"authorizers":               azName,
-		"registered_configurations": len(regCfgs(true)),
+		"registered_configurations": len(regCfgs(thorough)),
 		"rest_of_request":           restName,
 		"declarations":              declName,
 	})
